@@ -44,6 +44,7 @@ type vzAdv struct {
 	replayCh     chan tmelink.ReplayedHeaderRequest
 	notes        []string
 	regossips    map[uint64]int
+	signedFor    map[string]map[int]map[string]bool
 	doubleQuorum bool
 	budget       int                                   // adversarial injections in this run
 	lead         uint64                                // how many heights the puppets may run ahead of the node's finalizations
@@ -93,6 +94,27 @@ func (a *vzAdv) keyID(h uint64, j int) int {
 }
 
 func (a *vzAdv) signVote(kind int, h uint64, r uint32, hash string, j int) []byte {
+	// bookkeeping of equivocation: who has signed which targets in (kind, h, r)
+	k := fmt.Sprintf("%d/%d/%d", kind, h, r)
+	if a.signedFor[k] == nil {
+		a.signedFor[k] = map[int]map[string]bool{}
+	}
+	if a.signedFor[k][j] == nil {
+		a.signedFor[k][j] = map[string]bool{}
+	}
+	a.signedFor[k][j][hash] = true
+	if !a.w.beyondModel {
+		eq := map[int]bool{}
+		for v, t := range a.signedFor[k] {
+			if len(t) > 1 {
+				eq[v] = true
+			}
+		}
+		if p, total := a.power(h, eq); p > 0 && 3*p >= total {
+			a.w.beyondModel = true
+			a.w.s.Logf("adv: validators %v (>= 1/3 of the power) have now signed two targets in %s: beyond the fault model", eq, k)
+		}
+	}
 	vt := tmconsensus.VoteTarget{Height: h, Round: r, BlockHash: hash}
 	var sb []byte
 	if kind == 0 {
@@ -475,11 +497,20 @@ func (a *vzAdv) injectCertificate() {
 	if s.Pct("cert-duplicate", 30) {
 		hash = a.knownHash(h)
 	}
-	if _, decided := a.chain[h]; !decided && !a.doubleQuorum {
-		// Two different > 2/3 certificates racing for an undecided height need more than two thirds
-		// of the power to equivocate; only a fraction of the runs goes that far outside the fault model
-		// (known finding C09: the state machine then waits for the block the mirror did not commit).
-		hash = a.knownHash(h)
+	if !a.doubleQuorum {
+		// Two different > 2/3 certificates for one height need more than two thirds of the power to
+		// equivocate; only a fraction of the runs goes that far outside the fault model. The others
+		// send certificates the puppets stand by: the decided block of a decided height (in its round),
+		// or the planned block of the current round.
+		if ch, decided := a.chain[h]; decided {
+			if h >= a.nodeNext() || s.Pct("cert-genuine", 50) {
+				hash, r = string(ch.Header.Hash), ch.Proof.Round
+			}
+		} else if a.plan == 1 && len(a.phs) > 0 {
+			hash, r = string(a.phs[0].Header.Hash), a.r
+		} else {
+			return
+		}
 	}
 	var sigs []gcrypto.SparseSignature
 	for j := 1; j < w.cfg.nVal; j++ {
@@ -779,7 +810,7 @@ func runNode(s *vsimcore.Sim, p vsimcore.Params) vsimcore.RunInfo {
 	w := newVzWorld(s, cfg)
 	w.replayEnabled = true
 	adv := &vzAdv{w: w, h: cfg.initialHeight, voted: [2]map[string]map[int]bool{{}, {}}, chain: map[uint64]tmconsensus.CommittedHeader{},
-		chainPH: map[uint64]tmconsensus.ProposedHeader{}, regossips: map[uint64]int{}, lead: uint64([]int{0, 1, 10}[s.ChooseW("adv-lead", []int{6, 3, 2})]), valsets: map[uint64]tmconsensus.ValidatorSet{}, expect: map[int]string{}, rotate: cfg.rotate}
+		chainPH: map[uint64]tmconsensus.ProposedHeader{}, signedFor: map[string]map[int]map[string]bool{}, regossips: map[uint64]int{}, lead: uint64([]int{0, 1, 10}[s.ChooseW("adv-lead", []int{6, 3, 2})]), valsets: map[uint64]tmconsensus.ValidatorSet{}, expect: map[int]string{}, rotate: cfg.rotate}
 	w.adv = adv
 	adv.budget = []int{8, 30, 100, 400}[s.Choose("adv-budget", 4)]
 	adv.doubleQuorum = s.Pct("adv-double-quorum", 12)
